@@ -100,5 +100,158 @@ class InstallMapping(Bounded):
         return True
 
 
+# ---- the real install / uninstall targets, run by GNU make with the real doppel and patchelf (bounded) --------------
+
+import os as _os
+
+BUILD_BFG = """
+project('p', version='1.0')
+lib = shared_library('sub/shlib', files=['lib.c'])
+st = static_library('stlib', files=['st.c'])
+%(pre)s
+exe = executable('prog', files=['main.c'], libs=[%(libs)s])
+hdr = header_file('api.h')
+hdir = header_directory('include', include='**/*.hpp')
+hnone = header_directory('include2', include='*.zzz')
+man = man_page('prog.1')
+install(exe, st, hdr, hdir, hnone, man)
+install(generic_file('data.txt'), directory=Path('share/p data', InstallRoot.prefix))
+"""
+
+CONFIGS = {
+    # name: (configure options with {top}, DESTDIR with {top} or None, prebuilt source-tree library?)
+    'in-place': (['--prefix={top}/pre fix'], None, False),
+    'exec-prefix': (['--prefix={top}/pre', '--exec-prefix={top}/ex ec'], None, False),
+    'destdir': (['--prefix=/opt/my pre', '--exec-prefix=/opt/ex'], '{top}/dest dir', False),
+    'dirs': (['--prefix=/usr/local', '--bindir=/cb in', '--libdir=/cl ib', '--includedir=/ci nc', '--mandir=/cm an'],
+             '{top}/dd', False),
+    'prebuilt-lib': (['--prefix={top}/pre'], None, True),
+    'prebuilt-only': (['--prefix={top}/pre'], None, 'only'),
+}
+
+
+def _w(p, text):
+    _os.makedirs(_os.path.dirname(p), exist_ok=True)
+    with open(p, 'w') as f:
+        f.write(text)
+
+
+class InstallRun(Bounded):
+    """A generated project (executable linked to a project shared library in a subdirectory, static library, header,
+    header directory with an include pattern, a header directory whose pattern matches nothing, man page, data file
+    with directory=) configured by the tree under test and installed / uninstalled by GNU make with the real doppel
+    and patchelf: the installed file set is exactly the declared one under the configured directories (DESTDIR
+    honoured), run-time search paths of the installed program name installed library directories only, the installed
+    program runs when no DESTDIR is used, and uninstall leaves no file behind."""
+    target = 'bfg9000/builtins/install.py::_install_files'
+    properties = ('C15',)
+    reason = 'whole configure pipeline plus external make, doppel, patchelf, cc: runtime contract with the real tools'
+    native_chunk = 1
+
+    def native_inputs(self, case, alphabet, maxlen, rng, extra=0):
+        for k in CONFIGS:
+            yield {'config': k}
+
+    def native_check(self, case, raw):
+        import shutil, subprocess, tempfile
+        from pyvc.interp import REPO
+        opts, destdir, prebuilt = CONFIGS[raw['config']]
+        top = tempfile.mkdtemp(prefix='pyvc_inst_')
+        try:
+            src, b = top + '/src', top + '/b'
+            _w(src + '/build.bfg', BUILD_BFG % {
+                'pre': "pre = shared_library('prebuilt/libpre.so')" if prebuilt else '',
+                'libs': {False: 'lib', True: 'lib, pre', 'only': 'pre'}[prebuilt]})
+            _w(src + '/lib.c', 'int f(void) { return 7; }\n')
+            _w(src + '/st.c', 'int g(void) { return 1; }\n')
+            _w(src + '/main.c', {False: 'int f(void); int main(void) { return f() - 7; }\n',
+                                 True: 'int f(void); int h(void); int main(void) { return f() - 7 + h(); }\n',
+                                 'only': 'int h(void); int main(void) { return h(); }\n'}[prebuilt])
+            for f in ('api.h', 'include/a.hpp', 'include/deep/b.hpp', 'include/notes.txt', 'include2/readme.txt',
+                      'data.txt'):
+                _w(src + '/' + f, f)
+            _w(src + '/prog.1', '.TH prog 1\n')
+            env = dict(_os.environ, PATH=top + '/bin:/venv/bin:' + _os.environ['PATH'])
+            env.pop('MAKEFLAGS', None)
+            env.pop('DESTDIR', None)
+
+            def run(cmd, **kw):
+                return subprocess.run(cmd, env=env, capture_output=True, text=True, timeout=300, **kw)
+            if prebuilt:
+                _w(src + '/prebuilt/pre.c', 'int h(void) { return 0; }\n')
+                r = run(['cc', '-shared', '-fPIC', '-o', src + '/prebuilt/libpre.so', src + '/prebuilt/pre.c'])
+                if r.returncode != 0:
+                    return None
+            for name, mod in (('bfg9000', 'bfg9000.driver'), ('bfg9000-depfixer', 'bfg9000.depfixer')):
+                lp = top + '/bin/' + name
+                _w(lp, "#!/bin/sh\nPYTHONPATH=%s exec /venv/bin/python -c 'import sys; sys.argv[0] = \"%s\"; "
+                       "from %s import main; sys.exit(main())' \"$@\"\n" % (REPO, lp, mod))
+                _os.chmod(lp, 0o755)
+            opts = [o.format(top=top) for o in opts]
+            destdir = destdir.format(top=top) if destdir else None
+            r = run([top + '/bin/bfg9000', 'configure-into', src, b, '--backend=make', '--no-resolve-packages'] + opts)
+            if r.returncode != 0:
+                return self.fail(case, raw, 'configure_succeeds', stderr=r.stderr[-500:])
+            dd = ['DESTDIR=' + destdir] if destdir else []
+            r = run(['make', '-C', b, 'install'] + dd)
+            if r.returncode != 0:
+                return self.fail(case, raw, 'install_succeeds', output=(r.stdout + r.stderr)[-700:])
+            # expected layout, from the options
+            o = {}
+            for x in opts:
+                k, v = x[2:].split('=', 1)
+                o[k] = v
+            prefix = o['prefix']
+            ex = o.get('exec-prefix', prefix)
+            dirs = {'bin': o.get('bindir', ex + '/bin'), 'lib': o.get('libdir', ex + '/lib'),
+                    'include': o.get('includedir', prefix + '/include'), 'man': o.get('mandir', prefix + '/share/man')}
+            root = destdir or ''
+            found = set()
+            scan = [root + d for d in set(dirs.values()) | {prefix}] if not destdir else [destdir]
+            for sc in scan:
+                for dp, dn, fn in _os.walk(sc):
+                    for f in fn:
+                        found.add(_os.path.join(dp, f)[len(root):])
+            libs = [f for f in found if f.endswith('/libshlib.so')]
+            if prebuilt == 'only':
+                if libs:
+                    return self.fail(case, raw, 'exactly_the_declared_files_under_the_configured_directories', unexpected=libs)
+            elif len(libs) != 1 or not libs[0].startswith(dirs['lib'] + '/'):
+                return self.fail(case, raw, 'run_time_dependency_installed_under_libdir', found=sorted(found), libdir=dirs['lib'])
+            want = {dirs['bin'] + '/prog', dirs['lib'] + '/libstlib.a', dirs['include'] + '/api.h',
+                    dirs['include'] + '/a.hpp', dirs['include'] + '/deep/b.hpp', prefix + '/share/p data/data.txt'} | set(libs)
+            mans = {f for f in found if f.startswith(dirs['man'] + '/man1/prog.1')}
+            pre = {f for f in found if f.endswith('/libpre.so')}
+            if prebuilt and not (len(pre) == 1 and list(pre)[0].startswith(dirs['lib'] + '/')):
+                return self.fail(case, raw, 'run_time_dependency_installed_under_libdir', found=sorted(found), which='libpre.so')
+            if len(mans) != 1 or found - mans - pre != want:
+                return self.fail(case, raw, 'exactly_the_declared_files_under_the_configured_directories',
+                                 unexpected=sorted(found - mans - pre - want), missing=sorted(want - found), man=sorted(mans))
+            prog = root + dirs['bin'] + '/prog'
+            rp = run(['patchelf', '--print-rpath', prog])
+            allowed = {_os.path.dirname(x) for x in libs} | {_os.path.dirname(x) for x in pre}
+            entries = [e for e in rp.stdout.strip().split(':') if e]
+            if rp.returncode != 0 or not entries or any(e not in allowed for e in entries) or \
+                    any(_os.path.dirname(x) not in entries for x in libs):
+                return self.fail(case, raw, 'installed_search_paths_name_the_installed_library_directories',
+                                 rpath=rp.stdout.strip(), allowed=sorted(allowed))
+            if not destdir:
+                shutil.rmtree(b + '/sub', ignore_errors=True)       # the build-tree copy must not be what is found
+                pr = run([prog])
+                if pr.returncode != 0:
+                    return self.fail(case, raw, 'installed_program_runs', exit=pr.returncode, stderr=pr.stderr[-300:])
+            r = run(['make', '-C', b, 'uninstall'] + dd)
+            left = []
+            for sc in scan:
+                for dp, dn, fn in _os.walk(sc):
+                    left += [_os.path.join(dp, f)[len(root):] for f in fn]
+            if r.returncode != 0 or left:
+                return self.fail(case, raw, 'uninstall_removes_every_installed_file', left=sorted(left),
+                                 output=(r.stdout + r.stderr)[-300:])
+            return True
+        finally:
+            shutil.rmtree(top, ignore_errors=True)
+
+
 def registry():
-    return [InstallMapping()]
+    return [InstallMapping(), InstallRun()]
